@@ -203,16 +203,56 @@ def path_atoms(ctx, events, upto=None) -> dict[str, bool]:
     """Canonical atom -> truth for the branch events of a path (later events
     override earlier ones); alias-expanded in the frame they occur in."""
     out: dict[str, bool] = {}
+    # what an inlined predicate helper returned on this path, by call node
+    returned: dict[int, tuple] = {}
     for i, ev in enumerate(events):
         if upto is not None and i >= upto:
             break
+        if ev.kind == "return" and ev.frame.parent is not None and ev.frame.call_node is not None:
+            returned[id(ev.frame.call_node)] = (ev.data.get("value"), ev.fi)
+            continue
         if ev.kind != "branch":
             continue
-        text = lambda n, _f=ev.fi: ctx.norm.xtext(_f, n)  # noqa: E731
-        expand = lambda n, _f=ev.fi: ctx.norm.xexpr(_f, n)  # noqa: E731
-        for a, v in decompose(ev.node, ev.data["taken"], text, expand):
+        node, taken, fi_ = ev.node, ev.data["taken"], ev.fi
+        # `if self._is_exhausted():` with the helper inlined on this path: the
+        # branch is a statement about the expression the helper returned
+        t_, neg_ = node, False
+        while isinstance(t_, ast.UnaryOp) and isinstance(t_.op, ast.Not):
+            t_, neg_ = t_.operand, not neg_
+        if isinstance(t_, ast.Call) and id(t_) in returned:
+            rv, rfi = returned[id(t_)]
+            if isinstance(rv, ast.Constant) and isinstance(rv.value, bool):
+                continue  # a constant result: the helper's own branches say it all
+            if isinstance(rv, (ast.Compare, ast.BoolOp, ast.UnaryOp)):
+                node, taken, fi_ = rv, (not taken) if neg_ else taken, rfi
+        text = lambda n, _f=fi_: ctx.norm.xtext(_f, n)  # noqa: E731
+        expand = lambda n, _f=fi_: ctx.norm.xexpr(_f, n)  # noqa: E731
+        for a, v in decompose(node, taken, text, expand):
             out[a] = v
     return out
+
+
+def path_feasible(events) -> bool:
+    """False when the path contradicts itself in the one way the enumeration
+    cannot see: an inlined predicate helper returned the constant True / False
+    and the branch on that very call went the other way."""
+    returned: dict[int, bool] = {}
+    for ev in events:
+        if ev.kind == "return" and ev.frame.parent is not None and ev.frame.call_node is not None:
+            v = ev.data.get("value")
+            if isinstance(v, ast.Constant) and isinstance(v.value, bool):
+                returned[id(ev.frame.call_node)] = v.value
+            else:
+                returned.pop(id(ev.frame.call_node), None)
+        elif ev.kind == "branch":
+            t, neg = ev.node, False
+            while isinstance(t, ast.UnaryOp) and isinstance(t.op, ast.Not):
+                t, neg = t.operand, not neg
+            if isinstance(t, ast.Call) and id(t) in returned:
+                val = (not returned[id(t)]) if neg else returned[id(t)]
+                if val != ev.data["taken"]:
+                    return False
+    return True
 
 
 def only_called_from(ctx, fi: FuncInfo, owners: set, _seen=None) -> bool:
